@@ -159,7 +159,6 @@ var c44Changes = map[string][]string{
 	"other-changed":     {"h1>A,h2>A", "h1>A,h2>B"},
 	"removed-readded":   {"h1>A", "-", "h1>B"},
 	"mode-changed":      {"h1>A+mode=hostname", "h1>A+mode=target"},
-	"targets-swapped":   {"h1>A,h2>B", "h1>B,h2>A"},
 	"custom-retargeted": {"c.example.org>A,h1>A", "c.example.org>B,h1>A"},
 	"changed-twice":     {"h1>A", "h1>B", "h1>A+host=z.internal"},
 }
@@ -225,7 +224,6 @@ func c44Scenarios(thorough bool) []string {
 		add("insecure-enabled", []string{"reload"}, []string{"h1"})
 		add("insecure-disabled", []string{"reload"}, []string{"h1"})
 		add("mode-changed", both, []string{"h1"})
-		add("targets-swapped", both, []string{"h1,h2", "h1"})
 		add("custom-retargeted", both, []string{"c.example.org", "h1"})
 		add("changed-twice", both, []string{"h1", "h1,h1"})
 	}
@@ -515,7 +513,8 @@ func c44(c *report.Check) {
 	c.Assume("skipmap operations, getHTTPProxy (proxy cache lookup/creation + hand-off) and the stub tunnel RPCs are single atomic steps; the proxy's HTTP server goroutines run free",
 		"a connection whose handling overlaps the change may be served by the old or the new configuration; it is judged only if it arrived after the change completed",
 		"the header-timeout option is not observable without wall-clock waits and is not compared",
-		"only HTTP (cached proxy) connections are explored; TCP streams have no cache")
+		"only HTTP (cached proxy) connections are explored; TCP streams have no cache",
+		"every change touches one tunnel at a time: diffTunnels iterates Go maps, so with two or more changed tunnels the invalidation order is random and a schedule could not be replayed deterministically")
 }
 
 func c44Replay(c *report.Check, raw []byte) {
